@@ -1,4 +1,5 @@
 import SieveModel.Model.Table
+import SieveModel.Model.Args
 /-! FROZEN vocabulary (rendered from /verif/spec/vocabulary.json, hand-written from the RFCs; NOT derived from /repo). -/
 namespace Spec
 
@@ -7,6 +8,42 @@ def vocabulary : List (Bytes × Kind) := [(sb "require", .control), (sb "if", .c
 
 /-- every definition of the table is a word of the vocabulary, in its role -/
 def SpeaksOnly (T : Table) : Bool := T.all (fun d => decide ((d.name, d.kind) ∈ vocabulary))
+
+/-- the tags each command admits (commands not listed admit none) -/
+def tagVocabulary : List (Bytes × List Bytes) := [(sb "address", [sb ":comparator", sb ":all", sb ":localpart", sb ":domain", sb ":is", sb ":contains", sb ":matches", sb ":count", sb ":value", sb ":regex"]), (sb "body", [sb ":comparator", sb ":raw", sb ":content", sb ":text", sb ":is", sb ":contains", sb ":matches", sb ":count", sb ":value", sb ":regex"]), (sb "currentdate", [sb ":zone", sb ":comparator", sb ":is", sb ":contains", sb ":matches", sb ":count", sb ":value", sb ":regex"]), (sb "date", [sb ":zone", sb ":originalzone", sb ":comparator", sb ":is", sb ":contains", sb ":matches", sb ":count", sb ":value", sb ":regex"]), (sb "envelope", [sb ":comparator", sb ":all", sb ":localpart", sb ":domain", sb ":is", sb ":contains", sb ":matches", sb ":count", sb ":value", sb ":regex"]), (sb "fileinto", [sb ":copy", sb ":create", sb ":flags"]), (sb "hasflag", [sb ":comparator", sb ":is", sb ":contains", sb ":matches", sb ":count", sb ":value", sb ":regex"]), (sb "header", [sb ":comparator", sb ":is", sb ":contains", sb ":matches", sb ":count", sb ":value", sb ":regex"]), (sb "keep", [sb ":flags"]), (sb "redirect", [sb ":copy"]), (sb "size", [sb ":over", sb ":under"]), (sb "vacation", [sb ":days", sb ":seconds", sb ":subject", sb ":from", sb ":addresses", sb ":mime", sb ":handle"])]
+
+def tagsOf (d : CmdDef) : List Bytes :=
+  d.args.flatMap (fun a => if decide (ArgType.tag ∈ a.types) then (a.values.getD []) ++ a.extValues.map (·.1) else [])
+
+def frozenTags (n : Bytes) : List Bytes := ((tagVocabulary.find? (fun p => p.1 == n)).map (·.2)).getD []
+
+/-- every definition admits exactly the tags the frozen vocabulary gives its command -/
+def TagsExactly (T : Table) : Bool :=
+  T.all (fun d => (tagsOf d).all (fun t => decide (t ∈ frozenTags d.name)) && (frozenTags d.name).all (fun t => decide (t ∈ tagsOf d)))
+
+/-- the parameter each tag takes: (tag, admitted kinds, closed value set if any); a tag not listed takes none -/
+def tagParams : List (Bytes × List ArgType × Option (List Bytes)) := [(sb ":addresses", [.string, .stringlist], none), (sb ":comparator", [.string], some [sb "\"i;octet\"", sb "\"i;ascii-casemap\""]), (sb ":content", [.string, .stringlist], none), (sb ":count", [.string], some [sb "\"gt\"", sb "\"ge\"", sb "\"lt\"", sb "\"le\"", sb "\"eq\"", sb "\"ne\""]), (sb ":days", [.number], none), (sb ":flags", [.string, .stringlist], none), (sb ":from", [.string], none), (sb ":handle", [.string], none), (sb ":seconds", [.number], none), (sb ":subject", [.string], none), (sb ":value", [.string], some [sb "\"gt\"", sb "\"ge\"", sb "\"lt\"", sb "\"le\"", sb "\"eq\"", sb "\"ne\""]), (sb ":zone", [.string], none)]
+
+def frozenParam (t : Bytes) : Option (List ArgType × Option (List Bytes)) := (tagParams.find? (fun p => p.1 == t)).map (·.2)
+
+/-- what the definition gives tag `t` of slot `a` as parameter: `none` = no parameter -/
+def paramOf (a : ArgDef) (t : Bytes) : Option ExtraDef :=
+  match a.extra with
+  | none => none
+  | some e => match e.validFor with | none => some e | some vf => if decide (t ∈ vf) then some e else none
+
+def sameSet (a b : List Bytes) : Bool := a.all (fun x => decide (x ∈ b)) && b.all (fun x => decide (x ∈ a))
+
+/-- the parameter of every tag of every definition is the frozen one: same kinds admitted, same closed value set -/
+def ParamsExactly (T : Table) : Bool :=
+  T.all (fun d => d.args.all (fun a => !decide (ArgType.tag ∈ a.types) ||
+    ((a.values.getD []) ++ a.extValues.map (·.1)).all (fun t =>
+      match paramOf a t, frozenParam t with
+      | none, none => true
+      | some e, some (kinds, vals) =>
+        [ArgType.string, ArgType.number, ArgType.stringlist].all (fun k => Args.atypeIn k e == decide (k ∈ kinds)) &&
+        (match e.values, vals with | none, none => true | some x, some y => sameSet x y | _, _ => false)
+      | _, _ => false)))
 
 /-- every word of the vocabulary has a definition -/
 def SpeaksAll (T : Table) : Bool := vocabulary.all (fun (n, k) => T.any (fun d => d.name == n && d.kind == k))
